@@ -262,13 +262,23 @@ func runArr(arr byte, opts []string, srcRoot string, slash bool, dstRoot string)
 }
 
 // rule semantics of the property text: first matching plain-name rule decides; an excluded directory hides its subtree
-func excludedBy(rules []string, rel string) bool {
+func excludedBy(rules []string, rel string) bool { return excludedByKind(rules, rel, false) }
+
+// excludedByKind also knows whether the entry itself is a directory: a rule with a trailing slash names directories only
+func excludedByKind(rules []string, rel string, isDir bool) bool {
 	parts := strings.Split(rel, "/")
 	for i := range parts {
 		name := parts[i]
+		dir := isDir || i < len(parts)-1
 		for _, r := range rules {
 			include := strings.HasPrefix(r, "+ ")
 			pat := strings.TrimPrefix(strings.TrimPrefix(r, "+ "), "- ")
+			if strings.HasSuffix(pat, "/") {
+				if !dir {
+					continue
+				}
+				pat = strings.TrimSuffix(pat, "/")
+			}
 			if pat == name {
 				if include {
 					break
@@ -335,6 +345,82 @@ func suiteSession(h *H) {
 			pd := filepath.Join(ms, "dst-pull")
 			check("pull m/A/ m/B/", []string{"rsync", "-r", d.url("m", "A/"), d.url("m", "B/"), pd}, pd)
 			check("push A/ B/", []string{"rsync", "-r", filepath.Join(ms, "srcs", "A") + "/", filepath.Join(ms, "srcs", "B") + "/", d.url("w", "")}, filepath.Join(ms, "dst-push"))
+			d.stop()
+		}
+	}
+	// ---- two sources whose trees name the same files (more than a dozen of them, so that the sort of a list with
+	// equal names is not the short-list special case): an index must mean the same file on both sides, i.e. each
+	// destination file has the content *and* the modification time of one and the same source file
+	{
+		ds := filepath.Join(base, "dups")
+		nDup := 20 + h.rng.Intn(10)
+		for si, sname := range []string{"s1", "s2"} {
+			os.MkdirAll(filepath.Join(ds, sname), 0o755)
+			for k := 0; k < nDup; k++ {
+				f := filepath.Join(ds, sname, fmt.Sprintf("f%02d", k))
+				os.WriteFile(f, []byte(fmt.Sprintf("%s content of file %d %s", sname, k, strings.Repeat("x", si*3))), 0o644)
+				t := time.Unix(oldT+int64(1000*si+k), 0)
+				os.Chtimes(f, t, t)
+			}
+		}
+		type arrT struct {
+			tag  string
+			args func(dst string, d *daemon) []string
+		}
+		d, derr := startDaemon([]rsyncd.Module{{Name: "w", Path: filepath.Join(ds, "dst-push"), Writable: true}})
+		arrs := []arrT{{"local", func(dst string, _ *daemon) []string {
+			return []string{"rsync", "-rt", filepath.Join(ds, "s1") + "/", filepath.Join(ds, "s2") + "/", dst}
+		}}}
+		if derr == nil {
+			arrs = append(arrs, arrT{"push", func(dst string, d *daemon) []string {
+				return []string{"rsync", "-rt", filepath.Join(ds, "s1") + "/", filepath.Join(ds, "s2") + "/", d.url("w", "")}
+			}})
+		}
+		for _, a := range arrs {
+			dst := filepath.Join(ds, "dst-"+a.tag)
+			os.MkdirAll(dst, 0o755)
+			done := make(chan string, 1)
+			go func() {
+				_, err := maincmd.Main(context.Background(), quietEnv(), a.args(dst, d), nil)
+				if err != nil {
+					done <- "err:" + err.Error()
+				} else {
+					done <- "ok"
+				}
+			}()
+			out := "timeout"
+			select {
+			case out = <-done:
+			case <-time.After(30 * time.Second):
+			}
+			v := ""
+			if out != "ok" {
+				v = "FAIL[C01] a transfer of two sources with equal file names failed: " + strings.SplitN(out, "\n", 2)[0]
+			} else {
+				for k := 0; k < nDup && v == ""; k++ {
+					name := fmt.Sprintf("f%02d", k)
+					b, err := os.ReadFile(filepath.Join(dst, name))
+					fi, err2 := os.Stat(filepath.Join(dst, name))
+					if err != nil || err2 != nil {
+						v = fmt.Sprintf("FAIL[C01] %q is missing after a successful run", name)
+						break
+					}
+					okOne := false
+					for si, sname := range []string{"s1", "s2"} {
+						want := fmt.Sprintf("%s content of file %d %s", sname, k, strings.Repeat("x", si*3))
+						if string(b) == want && fi.ModTime().Unix() == oldT+int64(1000*si+k) {
+							okOne = true
+						}
+					}
+					if !okOne {
+						v = fmt.Sprintf("FAIL[C15] two sources with equal names (%s): %q has the content of one source file and the modification time of another (or neither): sender and receiver do not number the files identically", a.tag, name)
+					}
+				}
+			}
+			h.emit(fmt.Sprintf("!session-dups seed=%d %s files=%d", h.seed, a.tag, nDup), out, v, out == "ok")
+			h.stat("session.dups")
+		}
+		if derr == nil {
 			d.stop()
 		}
 	}
